@@ -48,7 +48,32 @@ def _witness(label: str, data: bytes, **kw: Any) -> dict[str, Any]:
 
 def judge(ctx: Any, label: str, data: bytes) -> str:
     """Guarded _judge: a harness failure for one input is counted and skipped."""
-    return g.guarded(ctx, "judge " + label, _judge, ctx, label, data) or "harness-error"
+    out = g.guarded(ctx, "judge " + label, _judge, ctx, label, data) or "harness-error"
+    if out not in ("harness-error", "wall", "step-budget") and (len(data) < 16 or ctx.evaluations % 4 == 0):
+        g.guarded(ctx, "judge-bytearray " + label, _judge_bytearray, ctx, label, data)
+    return out
+
+
+def _judge_bytearray(ctx: Any, label: str, data: bytes) -> None:
+    """The same octets handed over as a bytearray (what asyncio's proactor loop gives a TCP protocol): the outcome class must be the
+    one of the bytes input - same exception type, or a frame re-serialising to the same octets with the same rest."""
+    def parse(buf: Any) -> tuple:
+        try:
+            frame, rest = KNXIPFrame.from_knx(buf)
+        except Exception as exc:  # noqa: BLE001
+            return (type(exc).__name__, None, None)
+        try:
+            return ("frame", bytes(frame.to_knx()), bytes(rest))
+        except Exception as exc:  # noqa: BLE001 - re-serialisation is C21's subject, only compared here
+            return ("frame", "to_knx-raises-" + type(exc).__name__, bytes(rest))
+
+    a, b = parse(bytes(data)), parse(bytearray(data))
+    ctx.count("bytearray_inputs_compared")
+    if a != b:
+        svc = g.service_label(data)
+        what = b[0] if b[0] != a[0] else "other-frame"
+        ctx.violation(f"{svc}-bytearray-input-outcome-differs-{what}", _witness(label, data, bytes_outcome=a[0], bytearray_outcome=b[0]),
+                      f"KNXIPFrame.from_knx gives {a[0]} for {len(data)} octets as bytes but {b[0]} for the same octets as a bytearray")
 
 
 def _judge(ctx: Any, label: str, data: bytes) -> str:
